@@ -195,7 +195,7 @@ func init() {
 		RealStub: map[string]string{"verify.RawTdxQuote": "real", "pcs JSON decoding": "real", "Intel CA, TCB signer, QE": "stub (world, timeline)", "reference model": "world.EvalQE"},
 		Runs: func(tier string) int {
 			if tier == "thorough" {
-				return 20000
+				return 60000
 			}
 			return 1500
 		},
